@@ -10,12 +10,12 @@ UNARY = {
     "exp2": ((-2, 2), (), True), "expm1": ((-1.5, 1.5), (), True), "log": ((0.3, 3), (), True),
     "log2": ((0.3, 3), (), True), "log10": ((0.3, 3), (), True), "log1p": ((-0.5, 2), (), True),
     "sin": ((-2, 2), (), True), "cos": ((-2, 2), (), True), "tan": ((-1.2, 1.2), (), True),
-    "arcsin": ((-0.8, 0.8), (), False), "arccos": ((-0.8, 0.8), (), False), "arctan": ((-2, 2), (), False),
+    "arcsin": ((-0.8, 0.8), (), True), "arccos": ((-0.8, 0.8), (), True), "arctan": ((-2, 2), (), True),
     "sinh": ((-2, 2), (), True), "cosh": ((-2, 2), (), True), "tanh": ((-2, 2), (), True),
-    "arcsinh": ((-2, 2), (), False), "arccosh": ((1.3, 3), (), False), "arctanh": ((-0.8, 0.8), (), False),
+    "arcsinh": ((-2, 2), (), True), "arccosh": ((1.3, 3), (), True), "arctanh": ((-0.8, 0.8), (), True),
     "rad2deg": ((-2, 2), (), False), "degrees": ((-2, 2), (), False), "deg2rad": ((-2, 2), (), False),
     "radians": ((-2, 2), (), False), "square": ((-2, 2), (), True), "sqrt": ((0.3, 3), (), True),
-    "sinc": ((-1.8, 1.8), (0.0,), False), "real": ((-2, 2), (), True), "imag": ((-2, 2), (), True),
+    "sinc": ((-1.8, 1.8), (0.0,), True), "real": ((-2, 2), (), True), "imag": ((-2, 2), (), True),
     "conj": ((-2, 2), (), True), "conjugate": ((-2, 2), (), True), "angle": ((0.3, 2), (), True),
     "real_if_close": ((-2, 2), (), True), "nan_to_num": ((-2, 2), (), False),
 }
@@ -31,7 +31,9 @@ def _mk_unary(name, dom, avoid, cplx):
             d2 = LARGE_UNARY[name]
             return Call("u:" + name, lambda ns, x: getattr(ns, name)(x), [s], dom=d2, cplx=False, desc=[name, list(s), "large"],
                         feats={"fn": name, "scale": "large"})
-        return Call("u:" + name, lambda ns, x: getattr(ns, name)(x), [s], dom=dom, avoid=avoid, cplx=cplx,
+        # complex arguments: anywhere in the plane at a distance from both axes (every branch cut and pole of these functions lies on an
+        # axis), not only above the function's real domain
+        return Call("u:" + name, lambda ns, x: getattr(ns, name)(x), [s], dom=dom, avoid=avoid, cplx=cplx, cdom=(-2.0, 2.0),
                     desc=[name, list(s)], feats={"fn": name})
 
     template("u:" + name, "unary", has_kink=name in ("abs", "absolute", "fabs"))(draw)
